@@ -10,6 +10,7 @@ os.makedirs(dst, exist_ok=True)
 for f in os.listdir(src):
     if f.startswith('confirm_') or f.endswith('.log') or f.endswith('.json') or f.endswith('.txt') and f!='CONFIRM.txt': continue
     if os.path.isfile(f'{src}/{f}') and os.path.getsize(f'{src}/{f}') < 200000: shutil.copy(f'{src}/{f}', dst)
+    if os.path.isdir(f'{src}/{f}') and f.startswith('demo'): shutil.copytree(f'{src}/{f}', f'{dst}/{f}', dirs_exist_ok=True)
 det = {}
 for c in caught:
     log = glob.glob(f'/tmp/mutlogs/{seed}_{c}_quick.log')
